@@ -30,6 +30,7 @@ Inductive macro :=
 | MSend (p : nat)               (* Send to peer p runs to completion *)
 | MSendDead (p : nat)           (* Send to a peer nobody listens for: the dial fails *)
 | MSendHold (p : nat)           (* Send to peer p, held at router.connected (first arrival) *)
+| MSendHoldReg (p : nat)        (* Send to peer p, held at router.registered (between register and launch) *)
 | MSendRelease (t : nat)        (* sender t continues to completion *)
 | MIncoming (p : nat)           (* peer p connects and identifies itself; callback runs to completion *)
 | MIncomingHold (p : nat)       (* ... held at router.identityReceived *)
@@ -71,45 +72,48 @@ Fixpoint settle_n (fx : bool) (n : nat) (x : xstate) : xstate :=
 Definition settle (fx : bool) (x : xstate) : xstate :=
   settle_n fx 4 x.
 
-(* one step of a sending goroutine; [hold] = stop at router.connected *)
-Definition sender_step (fx : bool) (dial_ok hold : bool) (s : state) (t : nat) : option (state * bool) :=
+(* one step of a sending goroutine; [hold] = 1: stop at router.connected (before
+   registerConnection), 2: stop at router.registered (before launchHandleRoutine) *)
+Definition sender_step (fx : bool) (dial_ok : bool) (hold : nat) (s : state) (t : nat) : option state :=
   match nth_error (senders s) t with
-  | Some (NLookup _) => option_map (fun s' => (s', hold)) (step fx s (ALookup t))
-  | Some (NDial _ _) =>
-      option_map (fun s' => (s', hold)) (step fx s (if dial_ok then ADialOk t else ADialFail t))
+  | Some (NLookup _) => step fx s (ALookup t)
+  | Some (NDial _ _) => step fx s (if dial_ok then ADialOk t else ADialFail t)
   | Some (NConnect _ c _) =>
       match nth_error (conns s) c with
       | Some k =>
           match setup k with
-          | OSendId => option_map (fun s' => (s', hold)) (step fx s (ASendIdOk c))
-          | ORegister => if hold then None else option_map (fun s' => (s', false)) (step fx s (ARegister c))
-          | OLaunch => option_map (fun s' => (s', hold)) (step fx s (ALaunch c))
-          | SetupOk | SetupErr => option_map (fun s' => (s', hold)) (step fx s (AConnReturn t))
+          | OSendId => step fx s (ASendIdOk c)
+          | ORegister => if hold =? 1 then None else step fx s (ARegister c)
+          | OLaunch => if hold =? 2 then None else step fx s (ALaunch c)
+          | SetupOk | SetupErr => step fx s (AConnReturn t)
           | _ => None
           end
       | None => None
       end
   | Some (NSend _ c _) =>
       match nth_error (conns s) c with
-      | Some k => option_map (fun s' => (s', hold)) (step fx s (if lopen k then ASendOk t else ASendFail t))
+      | Some k =>
+          (* a write to a connection the peer has closed fails (in memory at once; on TCP the
+             frame header draws a reset and the body write fails) *)
+          step fx s (if lopen k && popen k then ASendOk t else ASendFail t)
       | None => None
       end
   | _ => None
   end.
 
-Fixpoint sender_run (fx : bool) (fuel : nat) (dial_ok hold : bool) (s : state) (t : nat) : state :=
+Fixpoint sender_run (fx : bool) (fuel : nat) (dial_ok : bool) (hold : nat) (s : state) (t : nat) : state :=
   match fuel with
   | 0 => s
   | S f => match sender_step fx dial_ok hold s t with
-           | Some (s', hold') => sender_run fx f dial_ok hold' s' t
+           | Some s' => sender_run fx f dial_ok hold s' t
            | None => s
            end
   end.
 
-(* a released sender passes router.connected first *)
+(* a released sender first passes the point it was held at *)
 Definition sender_release (fx : bool) (s : state) (t : nat) : state :=
   match nth_error (senders s) t with
-  | Some (NConnect _ c _) => sender_run fx 40 true false (attempt fx s (ARegister c)) t
+  | Some (NConnect _ c _) => sender_run fx 40 true 0 (tries fx s [ARegister c; ALaunch c]) t
   | _ => s
   end.
 
@@ -120,9 +124,10 @@ Definition do_macro (fx tcp : bool) (x : xstate) (m : macro) : xstate :=
   let s := xs x in
   let keep s' := mkX s' (held_disp x) (held_stop x) in
   match m with
-  | MSend p => let s1 := attempt fx s (ACallSend p) in keep (sender_run fx 40 true false s1 (length (senders s)))
-  | MSendDead p => let s1 := attempt fx s (ACallSend p) in keep (sender_run fx 40 false false s1 (length (senders s)))
-  | MSendHold p => let s1 := attempt fx s (ACallSend p) in keep (sender_run fx 40 true true s1 (length (senders s)))
+  | MSend p => let s1 := attempt fx s (ACallSend p) in keep (sender_run fx 40 true 0 s1 (length (senders s)))
+  | MSendDead p => let s1 := attempt fx s (ACallSend p) in keep (sender_run fx 40 false 0 s1 (length (senders s)))
+  | MSendHold p => let s1 := attempt fx s (ACallSend p) in keep (sender_run fx 40 true 1 s1 (length (senders s)))
+  | MSendHoldReg p => let s1 := attempt fx s (ACallSend p) in keep (sender_run fx 40 true 2 s1 (length (senders s)))
   | MSendRelease t => keep (sender_release fx s t)
   | MIncoming p =>
       match step fx s (AIncoming p) with
